@@ -106,6 +106,24 @@ def judgeC02 (o : Obs) : Verdict :=
           s!"task {arg c.1 0} was made runnable by cancel() during time {c.1.time} and ran (event {d.2}) before an activity whose delay ended at that time and was queued before"
       | none => []
     else []) ++
+  -- tasks started "now" by one activity in one turn - `do(x)`, `do(x, after=0)`, `do(x, at=now)` - become runnable in the
+  -- order of the calls, so they run in that order
+  (let immediate (e : Ev) : Bool :=
+      arg e 3 == 0 || (arg e 3 == 1 && arg e 4 == 0) || (arg e 3 == 2 && ratArg (arg e 4) (arg e 5) == e.time)
+   let spawns := (idx o).filter (fun p => p.1.tag == "spawn" && immediate p.1)
+   -- (scenario convention: a task whose program *begins* with `log 700+i` - only then is its first event the moment of its
+   -- first turn; a program that begins with a silent operation has had turns before its first event)
+   let firstOf (l : Int) : Option Nat := ((idx o).find? (fun q => q.1.label == l)).bind (fun q =>
+     if q.1.tag == "log" && arg q.1 0 ≥ 700 && arg q.1 0 < 800 then some q.2 else none)
+   (pairs spawns).flatMap (fun ab =>
+     let a := ab.1
+     let b := ab.2
+     if a.1.label == b.1.label && a.1.time == b.1.time && a.1.turn == b.1.turn then
+       match firstOf (arg a.1 1), firstOf (arg b.1 1) with
+       | some i, some j => fail (i > j)
+           s!"tasks {arg a.1 1} and {arg b.1 1} were started in this order by activity {a.1.label} at {a.1.time}, both without delay, but ran in the opposite order"
+       | _, _ => []
+     else [])) ++
   -- the levels of a resource supply iterate in the order of their names - not in the order of some earlier spelling that a
   -- cache happens to remember
   o.events.flatMap (fun e =>
@@ -272,6 +290,9 @@ def judgeC06 (o : Obs) : Verdict :=
          s!"task {t} was cancelled before it started with token {arg e 2}, awaiters saw {caughtTok}: the outcome changed after the task was done"
      | none => []) ++
     fail backwards s!"task {t}: status went backwards or changed after completion: {codes}" ++
+    -- a task ends by a cancellation only if somebody cancelled *it* (cancelling one task never cancels another)
+    fail ((fin.any (fun f => arg f 0 == 1) || !caughtTok.isEmpty) && tokens.isEmpty)
+      s!"task {t} ended cancelled{if caughtTok.isEmpty then "" else s!" (awaiters saw the token {caughtTok})"} although cancel() was never called on it" ++
     fail (rets.length > 1) s!"task {t}: awaiters received different results {rets}" ++
     fail (!cancelCreated.isEmpty && ran) s!"task {t} was cancelled before it started but its code ran" ++
     -- a cancel of a started task is raised inside it in the same time step: the task ends there, or
@@ -787,7 +808,13 @@ def judgeC16 (o : Obs) : Verdict :=
           fail (gots.map (fun g => arg g.1 0) != expected)
             s!"{what}: yielded {gots.map (fun g => arg g.1 0)}, the results in order of completion are {done.map (·.value)}" ++
           fail (gots.length > cnt) s!"{what}: yielded {gots.length} results" ++
-          fail (e.tag == "fend" && gots.length != wanted) s!"{what}: ended normally after {gots.length} results, expected {wanted}" ++
+          -- (an activity that fails with somebody else's TaskCancelled / TaskClosed - it awaited a task that a third party
+          -- cancelled - ends the iteration without an error: the scope of first() does not count these as failures; the
+          -- statement only asks that the iteration does not go on, clause below)
+          let foreignCancel := failed.any (fun f => match o.events[f.1]? with
+            | some ev => arg ev 1 == 1 || arg ev 1 == 2
+            | none => false)
+          fail (e.tag == "fend" && !foreignCancel && gots.length != wanted) s!"{what}: ended normally after {gots.length} results, expected {wanted}" ++
           ((gots.zip done).flatMap (fun gd =>
             let g := gd.1
             let ready := (((mine.filter (·.2 < g.2)).getLast?).map (·.1.time)).getD b.time
@@ -1019,7 +1046,13 @@ def judgeC18 (o : Obs) : Verdict :=
        fail (ran.any (fun r => r.time != t)) s!"event {inf.idx} triggers at {t} but callbacks ran at {ran.map (·.time)}" ++
        (match o.events.find? (·.tag == "pydone") with
         | some d => fail (t < d.time && ran.length != added.length) s!"event {inf.idx} triggered at {t}: {ran.length} of {added.length} callbacks ran"
-        | none => [])
+        | none =>
+          -- the run did not come to its end: a failed event whose own exception ended it had its callbacks run first
+          -- (they are what may defuse it)
+          -- (plain events only: a condition built on the failed event fails with the same exception object, but the run
+          -- is over before it is processed)
+          fail (inf.kind == 0 && o.crash != [] && code.headD 0 == 1 && code.drop 1 == o.crash && ran.length != added.length)
+            s!"event {inf.idx} failed at {t} and its exception ended the run, but only {ran.length} of its {added.length} callbacks ran before")
      | none => fail (!ran.isEmpty && inf.kind < 3) s!"callbacks of event {inf.idx} ran although it never triggered"))
   -- J5: env.until(..) returns exactly at the given time / when the given event triggers
   let untilC := (idx o).flatMap (fun p =>
